@@ -37,6 +37,16 @@ def sched_model(tier, st):
         if g.ok or g.invariant != want:
             raise Inconclusive("vacuity guard %s: expected %s to be violated, got %s" % (cfg, want, g.invariant))
     st["sched_model_guards"] = 2
+    # unbounded depth: the inductive invariant of ExecSchedInd.tla (the same actions, typed for Apalache, any set of
+    # children per unit): Init => IndInv, IndInv /\ Next => IndInv', IndInv => Safety
+    sc = vlib.scratch()
+    cwd = os.path.join(sc, "spec")
+    for init, inv, length in (("Init", "IndInv", 0), ("IndInit", "IndInv", 1), ("IndInit", "Safety", 0)):
+        rc, out = vlib.sh(["apalache-mc", "check", "--init=" + init, "--inv=" + inv, "--length=%d" % length,
+                           "--out-dir=" + os.path.join(sc, "apalache-out"), "ExecSchedInd.tla"], cwd=cwd, timeout=900, check=False)
+        if "EXITCODE: OK" not in out:
+            raise Inconclusive("Apalache: %s => %s (length %d) of ExecSchedInd.tla is not established:\n%s" % (init, inv, length, out[-2500:]))
+    st["sched_inductive_invariant"] = "IndInv of ExecSchedInd.tla inductive for 6 units and arbitrary children sets (Apalache, 3 obligations)"
 
 
 def sched_trace(prop, verdict, trace, st, batch):
@@ -195,7 +205,7 @@ def evidence(prop, tier, seed, st, verdict, rule, assumptions, extra=None):
         cov["schedules_enumerated"] = st["schedules"]
         cov["queries_with_all_schedules_enumerated"] = st.get("sched_exhausted", 0)
         cov["queries_in_schedule_enumeration"] = st.get("sched_queries", 0)
-    for k in ("sched_runs", "sched_events", "sched_errors_recorded", "sched_errors_dropped", "sched_model_states", "sched_model_guards"):
+    for k in ("sched_runs", "sched_events", "sched_errors_recorded", "sched_errors_dropped", "sched_model_states", "sched_model_guards", "sched_inductive_invariant"):
         if k in st:
             cov[k] = st[k]
     if extra:
